@@ -328,6 +328,13 @@ def rules(P, R, prefix="C14"):
                 for a in par["arms"]:
                     if a["pat"]["k"] in ("pexpr", "ptstruct") and a["pat"].get("path", "").endswith("::None"):
                         okn = a["body"]["k"] == "break" or diverges(a["body"])
+            elif par is not None and par["k"] == "let" and par["pat"].get("path", "").endswith("::Some"):
+                # `if let Some(m) = pending.pop_front() { .. } else { <leave> }` / `let Some(m) = .. else { <leave> }`
+                w = f.parents().get(id(par))
+                if w is not None and w["k"] == "if" and w["c"] is par and "e" in w:
+                    okn = diverges(w["e"])
+            elif par is not None and par["k"] == "slet" and "els" in par and par["pat"].get("path", "").endswith("::Some"):
+                okn = diverges(par["els"])
             R.judge(okn, prefix + ".F4", key(f, "reply with nothing pending ends the connection" + tag, i), n["sp"], "",
                     "an unexpected reply (pending_replies empty) does not leave the connection loop")
 
@@ -478,6 +485,14 @@ def pop_scope(f, pop):
         if w is not None and w["k"] == "while" and w["c"] is par:
             return [w["body"]], "while-let"
         if w is not None and w["k"] == "if" and w["c"] is par:
+            # `let p = if let Some(m) = q.pop() { m } else { <diverge> }; rest-of-block`
+            st = pm.get(id(w))
+            if "e" in w and diverges(w["e"]) and st is not None and st["k"] == "slet":
+                blk = pm.get(id(st))
+                if blk is not None and blk["k"] == "block":
+                    ss = blk.get("stmts", []) + ([blk["expr"]] if "expr" in blk else [])
+                    idx = next(k for k, s_ in enumerate(ss) if s_ is st)
+                    return ss[idx + 1:], "let-if-let"
             return [w["t"]], "if-let"
     if par["k"] == "match" and par["scrut"] is pop:
         live = [a for a in par["arms"] if not diverges(a["body"])]
